@@ -63,6 +63,17 @@ GColorRes == { Ins("cs", <<Nm("CsI3")>>), Ins("cs", <<Nm("CsN2")>>), Ins("cs", <
                <<N(1), N(0), N(1), Op("sc")>>, <<N(0), N(1), N(1), N(0), Op("scn")>>, <<N(1), N(0), Op("SCN")>>,
                <<N(0), N(1), N(0), Op("SC")>>, <<Op("q")>>, <<Op("Q")>>, Painter, Ins("Tj", <<Str(A)>>) }
 
+\* operators that consume operands and change nothing the glyphs and shapes report, between operators that do: the
+\* operand count of each must be right (an operand left behind is picked up by a later operator that lacks one), `W n`
+\* ends a path without painting it, and clipping / marked content / ExtGState leave text and graphics state alone
+GPass == { Ins("BMC", <<Nm("x")>>), Ins("BDC", <<Nm("x"), Nm("x")>>), <<Op("EMC")>>, Ins("MP", <<Nm("x")>>), Ins("DP", <<Nm("x"), Nm("x")>>),
+           <<Op("BX")>>, <<Op("EX")>>, <<Op("W")>>, <<Op("W*")>>, Ins("J", <<N(1)>>), Ins("j", <<N(2)>>), Ins("M", <<N(4)>>),
+           Ins("i", <<N(1)>>), Ins("ri", <<Nm("x")>>), Ins("gs", <<Nm("x")>>), Ins("Tr", <<N(1)>>), Ins("sh", <<Nm("x")>>),
+           \* the same with an operand missing or one too many
+           <<Op("BDC")>>, <<Nm("x"), Op("BDC")>>, <<N(7), Nm("x"), Op("BMC")>>, <<N(7), N(8), Op("EMC")>>, <<Op("Tr")>>,
+           \* and what shows the damage
+           Ins("re", <<N(1), N(1), N(4), N(3)>>), <<Op("n")>>, <<Op("S")>>, Ins("Tj", <<Str(A)>>), <<Op("Td")>>, Ins("w", <<N(2)>>), <<Op("w")>> }
+
 \* operators whose operands are missing or ill-typed, between a good prefix and probes that show any damage
 BadOps == { <<Op("Tc")>>, <<Nm("x"), Op("Tc")>>, <<N(3), Op("Td")>>, <<Nm("x"), N(1), Op("Td")>>, <<Op("Tf")>>, <<N(1), Op("Tm")>>,
             <<Op("Tj")>>, <<Op("TJ")>>, <<N(5), Op("TJ")>>, <<N(1), N(2), Op("\"")>>, <<Op("cm")>>, <<N(1), N(2), N(3), Op("cm")>>,
@@ -86,6 +97,7 @@ InitPath(L)  == InitGroup(GPath, L, <<>>, <<Op("S")>>)
 InitPaint(L) == InitGroup(GPaint, L, <<>>, <<Op("S")>>)
 InitPathCtm(L) == InitGroup(GPathCtm, L, <<>>, <<Op("B")>>)
 InitColor(L) == InitGroup(GColor, L, PreText, Painter)
+InitPass(L) == InitGroup(GPass, L, PreText, <<Str(A), Op("Tj")>> \o Painter)
 InitColorRes(L) == InitGroup(GColorRes, L, PreText, <<Str(A), Op("Tj")>> \o Painter)
 InitBad == \E b \in BadOps : Start(PreText \o GoodPre \o b \o Probe, Ident)
 \* two operators with missing / ill-typed operands, a good show operator in between and the probes after them
@@ -105,7 +117,7 @@ ZeroOps == { Ins("Tc", <<N(0)>>), Ins("Tw", <<N(0)>>), Ins("TL", <<N(0)>>), Ins(
 InitZero == \E z \in ZeroOps : Start(ZeroPre \o z \o Probe, Ident)
 InitZero2 == \E z1 \in ZeroOps, z2 \in ZeroOps : Start(ZeroPre \o z1 \o <<Str(A), Op("Tj")>> \o z2 \o Probe, Ident)
 
-MixPoolAll == GPos \cup GSpace \cup GState \cup GPath \cup GPathCtm \cup GColor \cup GPaint \cup GColorRes
+MixPoolAll == GPos \cup GSpace \cup GState \cup GPath \cup GPathCtm \cup GColor \cup GPaint \cup GColorRes \cup GPass
 NoPool == {}
 InitMixed == Start(PreText, Ident)
 
